@@ -269,7 +269,8 @@ func interpret(ops []Op) *ModelOut {
 			compDontCare := false
 			if op.Data.Comp {
 				switch {
-				case tm.chaos || !tm.refSet:
+				case tm.chaos || !tm.refSet || tm.ref == 0:
+					// (a reference that wrapped to exactly 0 is indistinguishable from "none")
 					compDontCare = true
 					if tm.refSet || tm.chaos {
 						tm.chaos = true
@@ -324,7 +325,10 @@ func interpret(ops []Op) *ModelOut {
 					delete(mm.Fields, pf.SIndex)
 					continue
 				}
-				if (pf.Kind == kindUTC || pf.Kind == kindLocal) && v == invalidCanon(pf) && mm.DontCare[pf.SIndex] {
+				// only the 0xFFFFFFFF sentinel "leaves the field untouched"; a transmitted 0 is a
+				// value (the base time) and overwrites whatever a compressed header put there
+				sentinel := (pf.Kind == kindUTC || pf.Kind == kindLocal) && len(b) == 4 && getN(b, def.be()) == 0xFFFFFFFF
+				if sentinel && mm.DontCare[pf.SIndex] {
 					// invalid time leaves the field untouched: it keeps the (unchecked)
 					// value the compressed header gave it
 					continue
@@ -335,7 +339,7 @@ func interpret(ops []Op) *ModelOut {
 					mm.Fields[pf.SIndex] = v
 					continue
 				}
-				if (pf.Kind == kindUTC || pf.Kind == kindLocal) && v == invalidCanon(pf) {
+				if sentinel {
 					// invalid time leaves the field untouched: a compressed-header timestamp stays
 					if _, had := mm.Fields[pf.SIndex]; had {
 						continue
